@@ -179,6 +179,21 @@ def run(tier, replay=None):
                     if math.isfinite(hi):
                         vals["hi%d" % i0] = hi
                         indep[i0] = (lo, hi, {"nll": lf["nll"], "theta": lf["theta"].tolist(), "nonlinear_truth": True})
+            # trees that are affine in parameter ATOMS (Trees!AtomLin, e.g. x + 1/a0): closed form in the atom values, then the atoms are
+            # inverted numerically; these are the variants whose parameter map is not empty
+            natom = 0
+            for i, t in enumerate(L.orig_trees):
+                m = model.get(tuple(t))
+                if i in indep or not m or m["lin"] == "lin" or m["alin"]["cls"] != "lin":
+                    continue
+                try:
+                    lo, hi, info = wls.atom_description_lengths(t, m["alin"]["roots"], x, y, sig, libproj.code_value(m["code"]))
+                except (wls.NotLinear, p1.Malformed):
+                    continue
+                if math.isfinite(hi):
+                    vals["hi%d" % i] = hi
+                    indep[i] = (lo, hi, dict(info, atom_linear=True))
+                    natom += 1
             cl = classes(vals, lambda m: max(5e-3, 2e-6 * m))
             for i, (lo, hi, info) in indep.items():
                 cases.append({"id": len(cases), "kind": "tree", "top": cl["top"], "hi": cl["hi%d" % i]})
@@ -197,7 +212,7 @@ def run(tier, replay=None):
                     re = None
                 cases.append({"id": len(cases), "kind": "row", "sumOK": bool(sum_ok), "nllOK": bool(nll_ok)})
                 meta.append((key0 + ":row%d" % row["rank"], "row %s: DL %r vs sum of terms %r; likelihood at reported parameters %r vs reported %r" % (row, row["dl"], s3, re, row["nll"]), {"truth": t0, "row": row}))
-            r.add("pipelines", evaluations=1, nontrivial=1, traces=1, **{key0: dict(rows=len(rows), linear_trees=len(indep), top=rows[0]["fn"], top_dl=rows[0]["dl"],
+            r.add("pipelines", evaluations=1, nontrivial=1, traces=1, **{key0: dict(rows=len(rows), linear_trees=len(indep) - natom, atom_linear_trees=natom, top=rows[0]["fn"], top_dl=rows[0]["dl"],
                                                                                  truth_dl=indep.get(i0, (None, None))[1])})
             r.sample({"library": name, "n": n, "truth": t0, "theta": th0, "top_row": rows[0]["fn"], "top_dl": rows[0]["dl"], "independent_dl_of_truth": indep.get(i0, (None, None))[:2]}, limit=4)
             shutil.rmtree(dd, ignore_errors=True)
